@@ -175,7 +175,7 @@ def check_c20(ctx):
     impl = run_brecovery(exe, images, workdir)
     os.rmdir(workdir)
     lines = ['recover ' + G.hexs(img) for img in images]
-    rc, model, err = run_lines(driver_path(), lines)
+    rc, model, err = run_model_lines(lines)
     mism, prop_fail, nontrivial = [], set(), set()
     for i in range(n):
         a = impl[i]
@@ -518,7 +518,7 @@ def check_c08(ctx):
                               {'kind': 'correspondence', 'stream': 'image_hypotheses', 'script': res['line'], 'point': point, 'hit': k,
                                'broken': 'hypotheses ImageOk / Represents of BinlogVerif.C08.c08_complete_and_printable on a real image'}, found_input=False)
     lines = ['recover ' + G.hexs(res['compact']) for _, res in crashed]
-    rc, model, err = run_lines(driver_path(), lines)
+    rc, model, err = run_model_lines(lines)
     mm = 0
     for i, ((si, ops, attempted, point, k), res) in enumerate(crashed):
         want = 'out=' + res['recovered'].hex() if res['brecovery_rc'] == 0 else 'out=CRASH'
